@@ -35,6 +35,7 @@ Matches(x, o) ==
   /\ x.tOpen = o.tOpen /\ x.tClose = o.tClose /\ x.tDrop = o.tDrop /\ x.tPs = o.tPs /\ x.tPt = o.tPt
   /\ x.pend = o.pend
   /\ x.dataAfterClose = o.dac /\ x.lateWrite = o.late      \* judged on the order of frames in the transport's byte stream
+  /\ ~o.lated                                               \* no message / ping / pong callback after the close notification
 
 \* E.cf = payload octets of the close frame written during this event (<<>> if none / empty payload)
 CfCode == IF Len(E.cf) >= 2 THEN E.cf[1] * 256 + E.cf[2] ELSE 0
@@ -65,6 +66,10 @@ TLBurst == /\ IsEvent("lburst")
 TPClose == /\ IsEvent("pclose") /\ TStep(PeerCloseOk(cfg, c, now, E.rc))
            /\ c'.nclose > c.nclose => CfCode = (IF cfg.echo THEN E.rc ELSE 1000)   \* reply: normal closure, or the peer's code when echoing
 TPData  == IsEvent("pdata") /\ TStep(PeerData(cfg, c, now))
+\* the peer's close frame and more frames in one read: the same as one after the other (a synchronously reported loss happens
+\* inside the close step; ConnLost commutes with the no-op that data on a closed connection is)
+TPCloseData == /\ IsEvent("pclosedata") /\ TStep(PeerData(cfg, PeerCloseOk(cfg, c, now, E.rc), now))
+               /\ c'.nclose > c.nclose => CfCode = (IF cfg.echo THEN E.rc ELSE 1000)
 TPPing  == IsEvent("pping") /\ TStep(PeerPing(cfg, c))
 TPPong  == IsEvent("ppong") /\ TStep(PeerPong(cfg, c, now, E.match))
 TPViol  == /\ IsEvent("pviol") /\ TStep(PeerViolation(cfg, c, now))
@@ -78,7 +83,7 @@ TAdv    == /\ IsEvent("adv")
 
 \* the layer above fails the connection itself (as the WAMP transports do): same as a peer violation, whatever its reason text
 TLFail == /\ IsEvent("lfail") /\ TStep(PeerViolation(cfg, c, now))
-TNext == TLFail \/ TMade \/ TOpened \/ TLClose \/ TLBurst \/ TLSend \/ TPClose \/ TPData \/ TPPing \/ TPPong \/ TPViol \/ TLost \/ TAdv
+TNext == TPCloseData \/ TLFail \/ TMade \/ TOpened \/ TLClose \/ TLBurst \/ TLSend \/ TPClose \/ TPData \/ TPPing \/ TPPong \/ TPViol \/ TLost \/ TAdv
 TraceSpec == TInit /\ [][TNext]_tvars
 
 Progress == TLCSet(tid, IF TLCGet(tid) < l THEN l ELSE TLCGet(tid))
